@@ -17,8 +17,19 @@
 #include "momo/MemPool.h"
 #include "momo/details/HashBucketOne.h"
 #include "momo/details/HashBucketLim4.h"
+#include "momo/details/HashBucketLimP.h"
+#include "momo/details/HashBucketLimP1.h"
+#include "momo/details/HashBucketLimP4.h"
+#include "momo/details/HashBucketUnlimP.h"
+#include "momo/details/HashBucketOpen8.h"
+#include "momo/details/HashBucketOpen2N2.h"
+#include "momo/details/HashBucketOpenN1.h"
+#include "momo/stdish/pool_allocator.h"
+#include <list>
+#include <map>
+#include <functional>
 // the TU is compiled three times (-DC03_PART=1|2|3) to keep each compilation short; without C03_PART everything is in
-#if defined(C03_PART) && C03_PART != 3
+#if defined(C03_PART) && C03_PART != 3 && C03_PART != 6
 #define C03_NO_DATATABLE
 #define C03_NO_STDISH
 #endif
@@ -37,14 +48,31 @@ using namespace momo;
 typedef unsigned long long ull;
 
 static bool g_fired = false;
-template<class F> static void G(F f)     // one guarded operation: an injected failure is swallowed, the history goes on
+// measured coverage: every guarded operation of a scenario is counted under (scenario, source text of the operation); printed on stderr at exit
+static std::map<std::string, unsigned long> g_cov;
+static std::string g_scn;
+static int g_dist = 0;      // hash distribution for the slow-hash configurations of the audit (kit::Dist), from the element kind suffix ".d"
+static long g_rearm = -1; static char g_rearm_kind = 0;     // fault SEQUENCES: after the first injected failure a second one is armed
+static void cov(const std::string& t) { ++g_cov[t]; }
+static void rearm()
 {
+	if (g_rearm < 0) return;
+	kit::World& w = kit::W();
+	if (g_rearm_kind == 'a') w.fail_alloc = g_rearm; else if (g_rearm_kind == 'c') w.fail_copy = g_rearm; else w.fail_func = g_rearm;
+	g_rearm = -1; cov("event:second-failure-armed");
+}
+template<class F> static void G_(const char* text, F f)     // one guarded operation: an injected failure is swallowed, the history goes on
+{
+	if (text[0] == '[') { std::string t(text); if (t.size() > 64) t.resize(64); cov("op:" + g_scn + ": " + t); }
+	bool before = g_fired;
 	try { f(); }
 	catch (const kit::InjectedAlloc&) { g_fired = true; }
 	catch (const std::bad_alloc&) { g_fired = true; }       // HashSet::pvAddGrow rethrows a sliced copy (`throw exception;`)
 	catch (const kit::InjectedCopy&) { g_fired = true; }
 	catch (const kit::InjectedFunc&) { g_fired = true; }
+	if (g_fired && !before) rearm();
 }
+#define G(...) G_(#__VA_ARGS__, __VA_ARGS__)
 static uint64_t g_rng = 1;
 static uint64_t rnd() { g_rng += 0x9E3779B97F4A7C15ull; uint64_t z = g_rng; z = (z ^ (z >> 30)) * 0xBF58476D1CE4E5B9ull; z = (z ^ (z >> 27)) * 0x94D049BB133111EBull; return z ^ (z >> 31); }
 template<class E> static E mk(int64_t v) { return E(v); }
@@ -183,6 +211,49 @@ template<class TS, class E> static void scn_tset(size_t p)
 	}
 }
 
+// ------------------------------------------------------------------------------------------------ aimed: ONE tree insertion
+// tiny nodes (TreeNode<4, 1>) with ONE block per pool buffer: every node is its own block at the memory manager, so a node lost by
+// the Relocator (TreeSet::Relocator::CreateNode keeps a node only in mNewNodes, a NestedArrayIntCap<4, Node*> whose growth can fail:
+// the 5th node of one insertion = two cascading splits + a new root) is a block that is never given back.  The prefix (p - 1
+// insertions) runs with the injection suspended; the failure counters are re-armed for the p-th insertion only, so `k` counts the
+// fallible steps of THAT insertion and prop.py enumerates every one of them.
+template<class TS, class E, class Ins> static void scn_trel(size_t p, int order, Ins ins)
+{
+	kit::World& w = kit::W();
+	long fa = w.fail_alloc, fc = w.fail_copy, ff = w.fail_func;
+	w.fail_alloc = w.fail_copy = w.fail_func = -1;
+	std::vector<E> pool; pool.reserve(p + 8);
+	for (size_t i = 0; i < p + 4; ++i)
+		pool.emplace_back(int64_t(order == 0 ? i : order == 1 ? 1000 - i : (i * 37) % 211));
+	uint64_t sa = 0, sc = 0, sf = 0;
+	{
+		TS s(typename TS::TreeTraits(), kit::MM(1));
+		for (size_t i = 0; i + 1 < p; ++i) ins(s, pool[i]);
+		w.arm(fa, fc, ff);
+		G([&] { ins(s, pool[p - 1]); });
+		sa = w.steps_alloc; sc = w.steps_copy; sf = w.steps_func;
+		w.fail_alloc = w.fail_copy = w.fail_func = -1;
+		if (s.GetCount() + 1 == p) ins(s, pool[p - 1]);        // the failed insertion left the set unchanged: do it again
+		if (s.GetCount() != p) w.error("tree count after the aimed insertion is " + std::to_string(s.GetCount()));
+		int64_t sum = 0;
+		for (auto it = s.GetBegin(); it != s.GetEnd(); ++it) ++sum;
+		if (size_t(sum) != p) w.error("tree iteration count");
+		for (size_t i = p; i < p + 3; ++i) ins(s, pool[i]);
+		if (p % 3 == 0) s.Clear();
+	}
+	w.steps_alloc = sa; w.steps_copy = sc; w.steps_func = sf;
+}
+template<class E, class PoolParams> static void trel_set(size_t p, int order)
+{
+	typedef TreeSet<E, TreeTraits<E, false, TreeNode<4, 1, PoolParams>>, kit::MM> TS;
+	scn_trel<TS, E>(p, order, [](TS& s, const E& e) { s.Insert(e); });
+}
+template<class E, class PoolParams> static void trel_map(size_t p, int order)
+{
+	typedef TreeMap<E, E, TreeTraits<E, false, TreeNode<4, 1, PoolParams>>, kit::MM> TM;
+	scn_trel<TM, E>(p, order, [](TM& s, const E& e) { s.Insert(e, E(e.Value() + 1)); });
+}
+
 // ------------------------------------------------------------------------------------------------ MemPool
 template<class Pool> static void scn_pool(size_t p, Pool&& pl, Pool&& pl2)
 {
@@ -316,6 +387,10 @@ template<class E> using HT1 = HashTraitsStd<E, kit::Hash, kit::Eq, HashBucketOne
 template<class E> using TTs = TreeTraits<E, false, TreeNode<4, 2>>;                               // small nodes: deep trees, empty traits (fast merge)
 template<class E> using TTf = TreeTraitsStd<E, kit::Less, false, TreeNode<4, 2>>;                 // instrumented comparator (functor failures)
 
+#if defined(C03_PART) && C03_PART >= 4
+#include "harness_audit.inc"
+#endif
+
 static bool dispatch(const std::string& scn, const std::string& el, size_t p)
 {
 	bool n = (el == "ntm");
@@ -396,6 +471,11 @@ static bool dispatch(const std::string& scn, const std::string& el, size_t p)
 		G([&] { src.Insert(pool[3 * p + 31]); });
 		while (src.GetCount() > 0) src.Remove(src.GetBegin());
 	}
+	else if (scn == "trel") { if (n) trel_set<EN, MemPoolParams<1>>(p, 0); else trel_set<EC, MemPoolParams<1>>(p, 0); }
+	else if (scn == "trel0") { if (n) trel_set<EN, MemPoolParams<1, 0>>(p, 0); else trel_set<EC, MemPoolParams<1, 0>>(p, 0); }
+	else if (scn == "treld") { if (n) trel_set<EN, MemPoolParams<1>>(p, 1); else trel_set<EC, MemPoolParams<1>>(p, 1); }
+	else if (scn == "trelr") { if (n) trel_set<EN, MemPoolParams<1>>(p, 2); else trel_set<EC, MemPoolParams<1>>(p, 2); }
+	else if (scn == "tmrel") { if (n) trel_map<EN, MemPoolParams<1>>(p, 0); else trel_map<EC, MemPoolParams<1>>(p, 0); }
 	else if (scn == "tmap") { if (n) scn_map<TreeMap<EN, EN, TTs<EN>, kit::MM>, EN, EN, TTs<EN>>(p); else scn_map<TreeMap<EC, EC, TTs<EC>, kit::MM>, EC, EC, TTs<EC>>(p); }
 	else if (scn == "pool")
 	{
@@ -437,7 +517,11 @@ static bool dispatch(const std::string& scn, const std::string& el, size_t p)
 	else if (scn == "smmap") { scn_std_map<stdish::multimap<EN, EN, kit::Less, kit::StdAlloc<std::pair<const EN, EN>>>, EN, EN>(p, kit::Less()); }
 	else
 #endif
+#if defined(C03_PART) && C03_PART >= 4
+	return dispatch_audit(scn, el, p);
+#else
 	return false;
+#endif
 	return true;
 }
 
@@ -449,6 +533,11 @@ int main()
 		std::istringstream is(line); std::string scn, el, kind; size_t p; long k; is >> scn >> el >> p >> kind >> k;
 		kit::World& w = kit::W();
 		w.errors.clear(); w.elog_reset(); w.elogging = true; g_fired = false; g_rng = 1;
+		g_scn = scn;
+		{ size_t dot = el.find('.'); g_dist = 0; if (dot != std::string::npos) { g_dist = std::atoi(el.c_str() + dot + 1); el.resize(dot); } }
+		// kinds A / C / F: the k-th step fails AND, once that failure has been caught, the 2nd next step of the same kind fails too
+		g_rearm = -1; if (kind == "A" || kind == "C" || kind == "F") { g_rearm_kind = char(kind[0] - 'A' + 'a'); g_rearm = 1; kind[0] = g_rearm_kind; }
+		cov("case:" + scn + "/" + el + "/" + (g_rearm >= 0 ? std::string(1, char(kind[0] - 'a' + 'A')) : kind));
 		w.arm(kind == "a" ? k : -1, kind == "c" ? k : -1, kind == "f" ? k : -1);
 		bool known = true;
 		G([&] { known = dispatch(scn, el, p); });       // a failure outside an inner guard (e.g. in the first constructor) ends the history
@@ -471,5 +560,6 @@ int main()
 		// leftovers of a broken scenario must not poison the next one
 		w.blocks.clear(); w.objs.clear();
 	}
+	for (auto& kv : g_cov) fprintf(stderr, "COV\t%s\t%lu\n", kv.first.c_str(), kv.second);
 	return 0;
 }
